@@ -25,3 +25,297 @@ Print Assumptions exported_labels_of_a_script.
 Theorem exported_labels_of_a_text : forall mp x, exported (emit_text mp x) = glob_name (xname x) (xglob x).
 Proof. exact TopProps.exported_text. Qed.
 Print Assumptions exported_labels_of_a_text.
+
+(* ---------- from the source text to the label lines (Scopes.v) ---------- *)
+(* `modifier_of ts`: the scope modifier written after a keyword / label name - none, (global), (local); `declares default ts name g`:
+   the statement at ts names `name` with scope g = what the modifier says, else the default; documented defaults: script, text,
+   mapscripts global - movement, mart local.  Parser: every top-level statement and every label statement records exactly the
+   written scope (the theorems named ..._scope_as_written, label_statement_scope, block_labels_as_written at every depth); hoisted texts and movements
+   are local.  Emitter: every label line carries the recorded flag, every label the compiler invents is local
+   (script_label_lines, top_label_lines, program_label_lines).  Printing: `::` iff exported.  compile_label_scopes: for every
+   compiled source, every label line of the output is a declaration or label statement of the source with the written /
+   default scope, or a compiler-invented local label. *)
+From Coq Require Import String.
+Open Scope list_scope.
+From Pory Require Import Parser Format Consume Worklist ProgWf Scopes.
+Theorem scope_modifier_reads :
+  forall (default : bool) (ts : toks) (m : modifier),
+  modifier_of ts = Some m -> scope_modifier default ts = Ok (scope_of default m, after_modifier m ts).
+Proof. exact Scopes.scope_modifier_reads. Qed.
+Print Assumptions scope_modifier_reads.
+
+Theorem scope_modifier_rejects :
+  forall (default : bool) (ts : toks), modifier_of ts = None -> exists e : perr, scope_modifier default ts = Err e.
+Proof. exact Scopes.scope_modifier_rejects. Qed.
+Print Assumptions scope_modifier_rejects.
+
+Theorem scope_modifier_inv :
+  forall (default : bool) (ts : toks) (g : bool) (ts' : toks),
+  scope_modifier default ts = Ok (g, ts') -> exists m : modifier, modifier_of ts = Some m /\ g = scope_of default m /\ ts' = after_modifier m ts.
+Proof. exact Scopes.scope_modifier_inv. Qed.
+Print Assumptions scope_modifier_inv.
+
+Theorem script_scope_as_written :
+  forall (autovars : list (text * autovar)) (switches : list (text * text)) (env_errors : bool)
+    (parse_format : toks -> res (token * text * text * toks)) (consts : list (text * text)) (f : nat) (ts : toks) (name : text) 
+    (g : bool) (body : list stmt) (imp : impdata) (ts' : toks),
+  parse_script autovars switches env_errors parse_format consts f ts = Ok (name, g, body, imp, ts') -> declares true ts name g.
+Proof. exact Scopes.script_scope_as_written. Qed.
+Print Assumptions script_scope_as_written.
+
+Theorem text_scope_as_written :
+  forall (switches : list (text * text)) (env_errors : bool) (parse_format : toks -> res (token * text * text * toks)) 
+    (f : nat) (ts : toks) (td : textdef) (ts' : toks),
+  parse_text switches env_errors parse_format f ts = Ok (td, ts') -> declares true ts (xname td) (xglob td).
+Proof. exact Scopes.text_scope_as_written. Qed.
+Print Assumptions text_scope_as_written.
+
+Theorem movement_scope_as_written :
+  forall (switches : list (text * text)) (env_errors : bool) (f : nat) (ts : toks) (tp : top) (ts' : toks),
+  parse_movement switches env_errors f ts = Ok (tp, ts') ->
+  exists (name : text) (g : bool) (steps : list token), tp = TMovement name g (cur ts) steps /\ declares false ts name g.
+Proof. exact Scopes.movement_scope_as_written. Qed.
+Print Assumptions movement_scope_as_written.
+
+Theorem mart_scope_as_written :
+  forall (switches : list (text * text)) (env_errors : bool) (consts : list (text * text)) (f : nat) (ts : toks) (tp : top) (ts' : toks),
+  parse_mart switches env_errors consts f ts = Ok (tp, ts') ->
+  exists (name : text) (g : bool) (items : list text) (itoks : list token), tp = TMart name g (cur ts) items itoks /\ declares false ts name g.
+Proof. exact Scopes.mart_scope_as_written. Qed.
+Print Assumptions mart_scope_as_written.
+
+Theorem mapscripts_scope_as_written :
+  forall (autovars : list (text * autovar)) (switches : list (text * text)) (env_errors : bool)
+    (parse_format : toks -> res (token * text * text * toks)) (consts : list (text * text)) (f : nat) (ts : toks) (tp : top) 
+    (imp : impdata) (ts' : toks),
+  parse_mapscripts autovars switches env_errors parse_format consts f ts = Ok (tp, imp, ts') ->
+  exists (name : text) (g : bool) (plain : list mapscript) (tables : list tablems),
+    tp = TMapScripts name g plain tables /\ declares true ts name g.
+Proof. exact Scopes.mapscripts_scope_as_written. Qed.
+Print Assumptions mapscripts_scope_as_written.
+
+Theorem documented_defaults :
+  forall (autovars : list (text * autovar)) (switches : list (text * text)) (env_errors : bool)
+    (parse_format : toks -> res (token * text * text * toks)) (ts : toks) (kw : toktype) (n : text) (g : bool),
+  recorded autovars switches env_errors parse_format ts kw n g ->
+  peekis LPAREN ts = false -> g = match kw with
+                                  | SCRIPT | TEXT | MAPSCRIPTS => true
+                                  | _ => false
+                                  end.
+Proof. exact Scopes.documented_defaults. Qed.
+Print Assumptions documented_defaults.
+
+Theorem global_modifier_is_recorded :
+  forall (autovars : list (text * autovar)) (switches : list (text * text)) (env_errors : bool)
+    (parse_format : toks -> res (token * text * text * toks)) (ts : toks) (kw : toktype) (n : text) (g : bool),
+  recorded autovars switches env_errors parse_format ts kw n g -> peekis LPAREN ts = true -> is GLOBAL (pk 2 ts) = true -> g = true.
+Proof. exact Scopes.global_modifier_is_recorded. Qed.
+Print Assumptions global_modifier_is_recorded.
+
+Theorem local_modifier_is_recorded :
+  forall (autovars : list (text * autovar)) (switches : list (text * text)) (env_errors : bool)
+    (parse_format : toks -> res (token * text * text * toks)) (ts : toks) (kw : toktype) (n : text) (g : bool),
+  recorded autovars switches env_errors parse_format ts kw n g -> peekis LPAREN ts = true -> is LOCAL (pk 2 ts) = true -> g = false.
+Proof. exact Scopes.local_modifier_is_recorded. Qed.
+Print Assumptions local_modifier_is_recorded.
+
+Theorem try_label_reads :
+  forall (ts : toks) (g : bool), label_written ts g -> try_label ts = Some (SLabel (tlit (cur ts)) g (cur ts), at_colon ts).
+Proof. exact Scopes.try_label_reads. Qed.
+Print Assumptions try_label_reads.
+
+Theorem try_label_inv :
+  forall (ts : toks) (s : stmt) (ts' : toks),
+  try_label ts = Some (s, ts') -> exists g : bool, label_written ts g /\ s = SLabel (tlit (cur ts)) g (cur ts) /\ ts' = at_colon ts.
+Proof. exact Scopes.try_label_inv. Qed.
+Print Assumptions try_label_inv.
+
+Theorem label_statement_scope :
+  forall (autovars : list (text * autovar)) (switches : list (text * text)) (env_errors : bool)
+    (parse_format : toks -> res (token * text * text * toks)) (consts : list (text * text)) (f : nat) (script : text) 
+    (bs cs : list nat) (ts : toks) (g : bool),
+  ttype (cur ts) = IDENT ->
+  label_written ts g ->
+  parse_stmt autovars switches env_errors parse_format consts (S f) script bs cs ts =
+  Ok ([SLabel (tlit (cur ts)) g (cur ts)], imp0, at_colon ts).
+Proof. exact Scopes.label_statement_scope. Qed.
+Print Assumptions label_statement_scope.
+
+Theorem block_labels_as_written :
+  forall (autovars : list (text * autovar)) (switches : list (text * text)) (env_errors : bool)
+    (parse_format : toks -> res (token * text * text * toks)) (consts : list (text * text)),
+  (forall (ts : toks) (tk : token) (v sty : text) (ts' : toks),
+   parse_format ts = Ok (tk, v, sty, ts') -> forall a : toks, advs a ts -> advs a ts') ->
+  forall (f : nat) (script : text) (bs cs : list nat) (start : token) (ts : toks) (ss : list stmt) (imp : impdata) (ts' base : toks),
+  parse_block autovars switches env_errors parse_format consts f script bs cs start ts [] imp0 = Ok (ss, imp, ts') ->
+  advs base ts -> forall (n : text) (g : bool) (tk : token), In (n, g, tk) (deep_labels ss) -> label_at base n g tk.
+Proof. exact Scopes.block_labels_as_written. Qed.
+Print Assumptions block_labels_as_written.
+
+Theorem hoisted_are_local :
+  forall (imp : impdata) (h h' : hst) (ps : list patch),
+  add_implicit imp h = (h', ps) ->
+  Forall hoisted_text (htexts h) -> Forall hoisted_movement (hmovs h) -> Forall hoisted_text (htexts h') /\ Forall hoisted_movement (hmovs h').
+Proof. exact Scopes.hoisted_are_local. Qed.
+Print Assumptions hoisted_are_local.
+
+Theorem program_scopes_as_written :
+  forall (autovars : list (text * autovar)) (switches : list (text * text)) (env_errors : bool)
+    (parse_format : toks -> res (token * text * text * toks)),
+  (forall (ts : toks) (tk : token) (v sty : text) (ts' : toks),
+   parse_format ts = Ok (tk, v, sty, ts') -> forall a : toks, advs a ts -> advs a ts') ->
+  forall (ts : toks) (p : program),
+  parse_program autovars switches env_errors parse_format ts = Ok p -> Forall (top_scope_ok ts) (tops p) /\ Forall (text_scope_ok ts) (texts p).
+Proof. exact Scopes.program_scopes_as_written. Qed.
+Print Assumptions program_scopes_as_written.
+
+Theorem text_label_line :
+  forall (mp : option text) (x : textdef), labels_of (emit_text mp x) = [(xname x, xglob x)].
+Proof. exact Scopes.text_label_line. Qed.
+Print Assumptions text_label_line.
+
+Theorem movement_label_line :
+  forall (mp : option text) (name : text) (glob : bool) (tk : token) (steps : list token),
+  labels_of (emit_movement mp name glob tk steps) = [(name, glob)].
+Proof. exact Scopes.movement_label_line. Qed.
+Print Assumptions movement_label_line.
+
+Theorem mart_label_line :
+  forall (mp : option text) (name : text) (glob : bool) (tk : token) (items : list text) (itoks : list token),
+  labels_of (emit_mart mp name glob tk items itoks) = [(name, glob)].
+Proof. exact Scopes.mart_label_line. Qed.
+Print Assumptions mart_label_line.
+
+Theorem label_statement_rendered :
+  forall (mp : option text) (n : text) (g : bool) (tk : token), render_stmt mp (SLabel n g tk) = marker mp (tline tk) ++ [ILabel n g].
+Proof. exact Scopes.label_statement_rendered. Qed.
+Print Assumptions label_statement_rendered.
+
+Theorem script_label_lines :
+  forall (mp : option text) (tl : list text) (name : text) (glob optimize : bool) (body : list stmt) (is : list instr),
+  emit_script mp tl name glob optimize body = Emitter.Ok is ->
+  src_ok body -> exists subs : list Z, ~ In 0%Z subs /\ Permutation.Permutation (labels_of is) (script_labels name glob subs body).
+Proof. exact Scopes.script_label_lines. Qed.
+Print Assumptions script_label_lines.
+
+Theorem script_code_starts_with_own_label :
+  forall (mp : option text) (tl : list text) (name : text) (glob optimize : bool) (body : list stmt) (is : list instr),
+  emit_script mp tl name glob optimize body = Emitter.Ok is -> src_ok body -> exists rest : list instr, is = ILabel name glob :: rest.
+Proof. exact Scopes.script_code_starts_with_own_label. Qed.
+Print Assumptions script_code_starts_with_own_label.
+
+Theorem top_label_lines :
+  forall (mp : option text) (tl : list text) (optimize : bool) (tp : top) (is : list instr),
+  emit_top mp tl optimize tp = Some (Emitter.Ok is) ->
+  scripts_ok (top_scripts tp) ->
+  (forall (n : text) (g : bool), In (ILabel n g) is -> top_may tp n g) /\ (forall (n : text) (g : bool), top_must tp n g -> In (ILabel n g) is).
+Proof. exact Scopes.top_label_lines. Qed.
+Print Assumptions top_label_lines.
+
+Theorem program_label_lines :
+  forall (optimize : bool) (mp : option text) (p : program) (is : list instr),
+  emit_program_instrs optimize mp p = Emitter.Ok is ->
+  Forall src_ok (bodies_of (tops p)) ->
+  (forall (n : text) (g : bool),
+   In (ILabel n g) is ->
+   (exists tp : top, In tp (tops p) /\ top_may tp n g) \/ (exists x : textdef, In x (texts p) /\ n = xname x /\ g = xglob x)) /\
+  (forall (n : text) (g : bool),
+   (exists tp : top, In tp (tops p) /\ top_must tp n g) \/ (exists x : textdef, In x (texts p) /\ n = xname x /\ g = xglob x) ->
+   In (ILabel n g) is).
+Proof. exact Scopes.program_label_lines. Qed.
+Print Assumptions program_label_lines.
+
+Theorem label_line_printed :
+  forall (path n : text) (g : bool), print_instr path (ILabel n g) = n ++ (if g then t "::" else t ":") ++ nl.
+Proof. exact Scopes.label_line_printed. Qed.
+Print Assumptions label_line_printed.
+
+Theorem exported_iff_double_colon :
+  forall (path n : text) (g : bool), print_instr path (ILabel n g) = n ++ t "::" ++ nl <-> g = true.
+Proof. exact Scopes.exported_iff_double_colon. Qed.
+Print Assumptions exported_iff_double_colon.
+
+Theorem local_iff_single_colon :
+  forall (path n : text) (g : bool), print_instr path (ILabel n g) = n ++ t ":" ++ nl <-> g = false.
+Proof. exact Scopes.local_iff_single_colon. Qed.
+Print Assumptions local_iff_single_colon.
+
+Theorem source_label_lines_as_written :
+  forall (hl hd hs : N -> bool) (autovars : list (text * autovar)) (switches : list (text * text)) (ee : bool) (fc : fontcfg) 
+    (cli_font : text) (cli_maxlen : Z) (src : text) (p : program) (optimize : bool) (mp : option text) (code : list instr),
+  parse_program autovars switches ee (parse_format fc cli_font cli_maxlen ee) (lex hl hd hs src) = Ok p ->
+  emit_program_instrs optimize mp p = Emitter.Ok code ->
+  forall (n : text) (g : bool),
+  In (ILabel n g) code ->
+  (exists kw : toktype, In kw naming_keywords /\ declared (lex hl hd hs src) kw n g) \/
+  (exists tk : token, label_at (lex hl hd hs src) n g tk) \/ g = false /\ invented_label p n.
+Proof. exact Scopes.source_label_lines_as_written. Qed.
+Print Assumptions source_label_lines_as_written.
+
+Theorem source_exported_labels_are_written :
+  forall (hl hd hs : N -> bool) (autovars : list (text * autovar)) (switches : list (text * text)) (ee : bool) (fc : fontcfg) 
+    (cli_font : text) (cli_maxlen : Z) (src : text) (p : program) (optimize : bool) (mp : option text) (code : list instr),
+  parse_program autovars switches ee (parse_format fc cli_font cli_maxlen ee) (lex hl hd hs src) = Ok p ->
+  emit_program_instrs optimize mp p = Emitter.Ok code ->
+  forall n : text,
+  In (ILabel n true) code ->
+  (exists (kw : toktype) (ts' : toks),
+     In kw naming_keywords /\
+     advs (lex hl hd hs src) ts' /\
+     ttype (cur ts') = kw /\ (modifier_of ts' = Some MGlobal \/ modifier_of ts' = Some MNone /\ default_scope kw = true)) \/
+  (exists ts' : toks,
+     advs (lex hl hd hs src) ts' /\
+     ttype (cur ts') = IDENT /\
+     n = tlit (cur ts') /\
+     is LPAREN (pk 1 ts') = true /\ is GLOBAL (pk 2 ts') = true /\ is RPAREN (pk 3 ts') = true /\ is COLON (pk 4 ts') = true).
+Proof. exact Scopes.source_exported_labels_are_written. Qed.
+Print Assumptions source_exported_labels_are_written.
+
+Theorem source_declared_labels_are_emitted :
+  forall (hl hd hs : N -> bool) (autovars : list (text * autovar)) (switches : list (text * text)) (ee : bool) (fc : fontcfg) 
+    (cli_font : text) (cli_maxlen : Z) (src : text) (p : program) (optimize : bool) (mp : option text) (code : list instr),
+  parse_program autovars switches ee (parse_format fc cli_font cli_maxlen ee) (lex hl hd hs src) = Ok p ->
+  emit_program_instrs optimize mp p = Emitter.Ok code ->
+  (forall (n : text) (g : bool) (b : list stmt),
+   In (TScript n g b) (tops p) ->
+   In (ILabel n g) code /\ (forall (n' : text) (g' : bool) (tk : token), In (n', g', tk) (deep_labels b) -> In (ILabel n' g') code)) /\
+  (forall (n : text) (g : bool) (tk : token) (steps : list token), In (TMovement n g tk steps) (tops p) -> In (ILabel n g) code) /\
+  (forall (n : text) (g : bool) (tk : token) (items : list text) (itoks : list token),
+   In (TMart n g tk items itoks) (tops p) -> In (ILabel n g) code) /\
+  (forall (n : text) (g : bool) (plain : list mapscript) (tables : list tablems),
+   In (TMapScripts n g plain tables) (tops p) ->
+   In (ILabel n g) code /\
+   (forall tb : tablems, In tb tables -> In (ILabel (tmName tb) false) code) /\
+   (forall (sn : text) (b : list stmt),
+    In (sn, b) (inline_scripts plain tables) ->
+    In (ILabel sn false) code /\ (forall (n' : text) (g' : bool) (tk : token), In (n', g', tk) (deep_labels b) -> In (ILabel n' g') code))) /\
+  (forall x : textdef, In x (texts p) -> In (ILabel (xname x) (xglob x)) code).
+Proof. exact Scopes.source_declared_labels_are_emitted. Qed.
+Print Assumptions source_declared_labels_are_emitted.
+
+Theorem source_scopes_as_written :
+  forall (hl hd hs : N -> bool) (autovars : list (text * autovar)) (switches : list (text * text)) (ee : bool) (fc : fontcfg) 
+    (cli_font : text) (cli_maxlen : Z) (src : text) (p : program),
+  parse_program autovars switches ee (parse_format fc cli_font cli_maxlen ee) (lex hl hd hs src) = Ok p ->
+  Forall (top_scope_ok (lex hl hd hs src)) (tops p) /\ Forall (text_scope_ok (lex hl hd hs src)) (texts p).
+Proof. exact Scopes.source_scopes_as_written. Qed.
+Print Assumptions source_scopes_as_written.
+
+Theorem compile_label_scopes :
+  forall (hl hd hs : N -> bool) (autovars : list (text * autovar)) (switches : list (text * text)) (ee : bool) (fc : fontcfg) 
+    (cli_font : text) (cli_maxlen : Z) (optimize : bool) (mp : option text) (src out : text),
+  Compile.compile hl hd hs autovars switches ee fc cli_font cli_maxlen optimize mp src = Compile.OutText out ->
+  let ts := lex hl hd hs src in
+  exists (p : program) (code : list instr),
+    parse_program autovars switches ee (parse_format fc cli_font cli_maxlen ee) ts = Ok p /\
+    emit_program_instrs optimize mp p = Emitter.Ok code /\
+    out = print_instrs mp code /\
+    (forall (n : text) (g : bool),
+     In (ILabel n g) code ->
+     (exists kw : toktype, In kw naming_keywords /\ declared ts kw n g) \/
+     (exists tk : token, label_at ts n g tk) \/ g = false /\ invented_label p n) /\
+    (forall (n : text) (g : bool),
+     In (ILabel n g) code -> exists pre post : list N, out = pre ++ (n ++ (if g then t "::" else t ":") ++ nl) ++ post).
+Proof. exact Scopes.compile_label_scopes. Qed.
+Print Assumptions compile_label_scopes.
+
